@@ -123,6 +123,8 @@ def run_tag(prog, tier, repo):
     # (2) shift amount / tag constant agreement among sibling encoder and decoders
     shifts = {}
     tags = {}
+    shift_helpers = set()
+    per_body_shifts = {}
     for b in heapbodies:
         if b.self_ty is None or strip_refs(b.self_ty).k != 'adt' or strip_refs(b.self_ty).id != union.id:
             continue
@@ -136,6 +138,21 @@ def run_tag(prog, tier, repo):
                         shift_results.add(st[1].local)
                         if op.startswith('Shl') and a[0] == 'k' and a[1].i is not None:
                             tags.setdefault(a[1].i, []).append((b, st[3], 'encoder'))
+                        elif op.startswith('Shl') and a[0] in ('c', 'm'):
+                            cv = _const_through_casts(b, a[1].local)      # `(TAG as u128) << 120`
+                            if cv is not None:
+                                tags.setdefault(cv, []).append((b, st[3], 'encoder'))
+        if root_local(b, 0)[0] in shift_results:
+            shift_helpers.add(b.id)       # `fn tag_byte(&self) -> u8 { (word >> 120) as u8 }`
+        per_body_shifts[b.id] = shift_results
+    for b in heapbodies:
+        if b.self_ty is None or strip_refs(b.self_ty).k != 'adt' or strip_refs(b.self_ty).id != union.id:
+            continue
+        shift_results = set(per_body_shifts.get(b.id, ()))
+        for bl in b.blocks:
+            t_ = bl.term
+            if not bl.cleanup and t_[0] == 'call' and callee(t_)[0] in shift_helpers and t_[4] is not None and not t_[4].proj:
+                shift_results.add(t_[4].local)
         for bl in b.blocks:
             for st in bl.stmts:
                 if st[0] == 'a' and st[2][0] == 'bin' and st[2][1] in ('Eq', 'Ne'):
@@ -278,6 +295,31 @@ def run_tag(prog, tier, repo):
                             res.ok(key, b.loc(st[3]), f'size is the const generic array length; every caller passes at most {max(lens)} bytes')
                     if gen_ok:
                         continue
+                    # `storage[..size]` on the fixed-size storage array: the slice index itself checks `size <= N` and panics
+                    # otherwise, so a construction dominated by it cannot carry a larger size
+                    idx_ok = None
+                    for bj, bl2 in enumerate(b.blocks):
+                        t2 = bl2.term
+                        if bl2.cleanup or t2[0] != 'call' or len(t2[3]) < 2 or (callee(t2)[1] or '').split('::')[-1] not in ('index_mut', 'index'):
+                            continue
+                        if t2[3][0][0] not in ('c', 'm') or t2[3][1][0] not in ('c', 'm'):
+                            continue
+                        m_arr = re.search(r'\[u8; (\d+)\]', strip_refs_(b.locals[t2[3][0][1].local]).s)
+                        if not m_arr or int(m_arr.group(1)) > cap:
+                            continue
+                        sd_r = single_def(b, t2[3][1][1].local)
+                        if not (sd_r and sd_r[1] != 'term' and sd_r[2][0] == 'agg' and sd_r[2][1][0] == 'adt'
+                                and str(sd_r[2][1][3]) in ('RangeTo', 'Range') and sd_r[2][2]):
+                            continue
+                        end = sd_r[2][2][-1]
+                        if end[0] in ('c', 'm') and root_local(b, end[1].local)[0] == r and not _narrowed(b, end[1].local) \
+                                and cfg.nodes_dominate([bj], bi):
+                            idx_ok = (bj, int(m_arr.group(1)))
+                    if idx_ok:
+                        res.ok(key, b.loc(st[3]), f'dominated by a `[..size]` index into the {idx_ok[1]}-byte storage array, which panics '
+                               f'unless size <= {idx_ok[1]}')
+                        res.ok(f'inline-size-faithful:{b.name}', b.loc(st[3]), 'the indexed length is the untruncated length')
+                        continue
                     if edges and cfg.edges_dominate(edges, bi):
                         res.ok(key, b.loc(st[3]), f'dominated by the true edge of size <= {cap}')
                         # (3b) the test must look at the whole length: a length narrowed to a smaller integer type before the
@@ -295,6 +337,30 @@ def run_tag(prog, tier, repo):
                                       f'by a dominating comparison: longer text would overwrite the tag byte')
     res.floor('inline handle constructions', n_inline, 6)
     return [res]
+
+
+def _const_through_casts(b, local):
+    for _ in range(8):
+        sd = single_def(b, local)
+        if sd is None or sd[1] == 'term':
+            return None
+        rv = sd[2]
+        o = rv[1] if rv[0] == 'use' else (rv[2] if rv[0] == 'cast' else None)
+        if o is None:
+            return None
+        if o[0] == 'k':
+            return o[1].i
+        if o[0] in ('c', 'm') and not o[1].proj:
+            local = o[1].local
+        else:
+            return None
+    return None
+
+
+def strip_refs_(t):
+    while t.k in ('ref', 'ptr'):
+        t = t.args[0]
+    return t
 
 
 _WIDTH = {'u8': 8, 'i8': 8, 'u16': 16, 'i16': 16, 'u32': 32, 'i32': 32, 'u64': 64, 'i64': 64, 'usize': 64, 'isize': 64,
